@@ -782,6 +782,9 @@ func c7genCell(rng *RNG, kind int) c7cell {
 		pool := []string{"1a", "10", "9", "-1", "a", "<nil>", "", "k"}
 		return c7cell{true, pool[rng.Intn(len(pool))]}
 	}
+	if kind == 5 { // tiny magnitudes: distinct values closer than 1e-9 must still be ordered
+		return c7cell{true, float64(rng.Range(-6, 12)) / float64(int64(1)<<40)}
+	}
 	return c7cell{true, rng.Range(0, 2)} // heavy ties
 }
 
@@ -789,7 +792,7 @@ func c7sortCase(rng *RNG, o *Out, nrows int, mixed bool) {
 	ncols := rng.Range(1, 3)
 	kinds := make([]int, ncols)
 	for c := range kinds {
-		kinds[c] = []int{0, 1, 2, 4, 4}[rng.Intn(5)]
+		kinds[c] = []int{0, 1, 2, 4, 4, 5}[rng.Intn(6)]
 		if mixed && rng.Bool() {
 			kinds[c] = 3
 		}
